@@ -25,8 +25,19 @@ def load_ledger(prop):
     return None
 
 
+_native_cache = {}
+
+
 def run_native(script, timeout=300):
-    """Run a replay script against the real code (nutils is installed editable from /repo/src)."""
+    """Run a replay script against the real code (nutils is installed editable from /repo/src).
+    Identical scripts (same recipe for several obligations of one contract) are run once per check."""
+    if script in _native_cache:
+        return _native_cache[script]
+    r = _native_cache[script] = _run_native(script, timeout)
+    return r
+
+
+def _run_native(script, timeout=300):
     env = dict(os.environ)
     env.pop('PYTHONPATH', None)
     env['PYTHONDONTWRITEBYTECODE'] = '1'
@@ -99,7 +110,7 @@ def finding_matches(f, ob):
     return f.get('function') == ob.fn and (f.get('clause') in (None, ob.clause))
 
 
-def conclude(prop, tier, seed, mod, cresults, obligations, wall, extra_info=None, verbose=False):
+def conclude(prop, tier, seed, mod, cresults, obligations, wall, extra_info=None, verbose=False, only=None):
     covers = [o for o in obligations if o.kind == 'cover']
     obligations = [o for o in obligations if o.kind != 'cover']
     known = load_known()
@@ -163,9 +174,11 @@ def conclude(prop, tier, seed, mod, cresults, obligations, wall, extra_info=None
 
     # ledger: every clause discharged on the pinned tree must be generated again
     missing = []
-    if ledger is not None and not PARTIAL:
+    if ledger is not None:
         present = set('%s|%s' % (o.fn, o.clause) for o in obligations)
         for ent in ledger.get('discharged', []):
+            if only and only not in ent.split('|')[0]:
+                continue  # --only: ledger completeness is checked for the selected contracts
             if ent not in present:
                 missing.append(ent)
 
@@ -211,7 +224,7 @@ def conclude(prop, tier, seed, mod, cresults, obligations, wall, extra_info=None
     np_ = [o for o in obligations if not o.bounded]
     summary = '%s %s: %d obligations (%d unbounded, %d bounded), %d discharged, %d refuted (%d known findings), %d undecided; %d functions; %.1fs' % (
         prop, tier, len(obligations), len(np_), len(nb), len(proved), len(refuted), len(known_hits), len(unknown), len(set(cr.contract.fn for cr in cresults)), wall)
-    print(summary + (' [partial run (--only): ledger completeness not checked]' if PARTIAL else ''))
+    print(summary + (' [partial run (--only): ledger completeness checked for the selected contracts only]' if PARTIAL else ''))
     for l in lines:
         print(l)
     _last[prop] = dict(obligations=obligations, cresults=cresults)
